@@ -12,6 +12,7 @@ from vlib import Infra
 
 def run(v, tier, seed, replay):
     exe = solver.build()
+    inconclusive = []
     # ---- values
     cfg = solver.flow_cfg("C04_flow", 8, 1, [1, 2] if tier == "quick" else [1, 2, 3], list(range(32)), [0])
     r = vlib.tlc("SolverFlow", cfg, timeout=1800)
@@ -88,7 +89,10 @@ def run(v, tier, seed, replay):
         if rc != 0:
             raise Infra("solver_drive failed: " + err[-500:])
         if any('"threw":true' in l for l in ev):
-            raise Infra("GSL reported an integration failure in a protocol run (script: %s)" % cmds)
+            # inconclusive for this history (GSL's error control may refuse a run for reasons of its own); reported as an
+            # infrastructure error at the end unless the rest of the check finds a violation
+            inconclusive.append("GSL reported an integration failure in a protocol run (script: %s)" % cmds)
+            continue
         if any('"contract":false' in l for l in ev):
             raise Infra("environment outside assumption: GSL evaluated the first right-hand side of a run away from the caller's array")
         ok, m, bad, tr = solver.validate_trace(ev, "c04_%d" % hi)
@@ -110,4 +114,6 @@ def run(v, tier, seed, replay):
         v.sample({"cfg": c["edges"][0]["cfg"], "hist": c["edges"][0]["hist"], "mode": list(c["mode"]), "expected_scalar_A": c["edges"][0]["scA"]})
     v.cov["rule"] = "flow: 8 configurations (nx 1..3, nsun 2..6, nrhos 1..2, nscalars 0..2) x all 32 switch sets x durations x 11 stepper modes (quick: 1/3 hashed); protocol: one two-segment run per stepper mode and random configuration, every Rhs validated"
     v.assumptions.append("that GSL integrates an arbitrary user right-hand side to tolerance is GSL's contract; decided here: SQuIDS hands GSL exactly the documented right-hand side (structure for all switch sets, values on the solvable family)")
+    if inconclusive and not v.violations:
+        raise Infra(inconclusive[0])
     return "model_checking"
